@@ -158,6 +158,7 @@ def cases(ctx):
                 c["min"] = r.choice(vals)
             if mask & 8:
                 c["max"] = r.choice(vals)
+            c["order"] = r.sample(["tmpl", "exact", "min", "max"], 4)
             yield c
 
 
@@ -225,7 +226,7 @@ def judge(ctx, case):
         tm = template.parse_template(case["tmpl"]) if "tmpl" in case else None
         ex, mn, mx = case.get("exact"), case.get("min"), case.get("max")
         ctx.hit("criteria_mask_%d" % ((1 if tm else 0) | (2 if ex is not None else 0) | (4 if mn is not None else 0) | (8 if mx is not None else 0)))
-        req = {"op": "criteria", "tx": case["tx"], "ext": case["ext"]}
+        req = {"op": "criteria", "tx": case["tx"], "ext": case["ext"], "order": case.get("order", ["tmpl", "exact", "min", "max"])}
         for f in ("tmpl", "exact", "min", "max"):
             if f in case:
                 req[f] = case[f]
